@@ -38,3 +38,16 @@ Proof.
   unfold wfb, wf. generalize empty_sys. induction ops as [|o ops IH]; intros s; cbn [wfb_from wf_from]; [auto|].
   intros H. apply andb_true_iff in H. destruct H as [H1 H2]. split; [now apply wf_stepb_wf|auto].
 Qed.
+
+From IpfsLog Require Import Proofs.PSys.
+
+Lemma pwf_stepb_pwf s o : pwf_stepb s o = true -> pwf_step s o.
+Proof.
+  destruct o; cbn [pwf_stepb pwf_step]; auto; intros H; apply wf_stepb_wf in H; exact H.
+Qed.
+
+Theorem pwfb_pwf ops : pwfb ops = true -> pwf ops.
+Proof.
+  unfold pwfb, pwf. generalize empty_sys. induction ops as [|o ops IH]; intros s; cbn [pwfb_from pwf_from]; [auto|].
+  intros H. apply andb_true_iff in H. destruct H as [H1 H2]. split; [now apply pwf_stepb_pwf|auto].
+Qed.
